@@ -8,7 +8,7 @@ CASE_TIMEOUT = 30
 
 # atoms the oracles understand: name -> (kind, variable, coding, reference/omitted level or None)
 ATOMS = {
-    "x": ("num", "x"), "z": ("num", "z"), "w": ("num", "w"),
+    "x": ("num", "x"), "z": ("num", "z"), "w": ("num", "w"), "bq": ("num", "bq"),
     "I(x + 1)": ("expr", "x + 1"), "{w * 2}": ("expr", "w * 2"), "I(w * 2)": ("expr", "w * 2"),
     "I(z ** 2)": ("expr", "z ** 2"), "I(x - z)": ("expr", "x - z"),
     "f": ("cat", "f", "treatment", None), "g": ("cat", "g", "treatment", None),
